@@ -12,7 +12,7 @@ TECH = ('symbolic execution of rustc MIR (mirsym) + z3 over symbolic Files/Deps 
 
 PLAN = {
     'C02': ['sched', 'kernel', 'quiet_memo', 'two_phase'],
-    'C03': ['kernel', 'should_build', 'stamp', 'unlocked', 'env_inherit', 'record'],
+    'C03': ['sched', 'kernel', 'should_build', 'stamp', 'unlocked', 'env_inherit', 'record'],
     'C05': ['sched', 'kernel', 'set_failed', 'should_build', 'record', 'job_completion', 'script_args'],
     'C12': ['sched', 'kernel', 'cycles', 'env_inherit'],
     'C14': ['sched', 'kernel', 'ifcreate_always', 'stamp'],
